@@ -165,9 +165,8 @@ structure FnAttr where
   opts : Opts
   deriving DecidableEq, Repr, Inhabited
 
-/-- `EntraitFnAttr::parse` -/
-def parseFnAttr (ts : Toks) : Except PErr FnAttr :=
-  match splitCommas ts with
+/-- `EntraitFnAttr::parse`, on the comma-separated segments of the argument list -/
+def parseFnSegs : List Toks → Except PErr FnAttr
   | [] => .error .syn
   | seg0 :: segs =>
     match parseVis seg0 with
@@ -181,6 +180,8 @@ def parseFnAttr (ts : Toks) : Except PErr FnAttr :=
             | .error e => .error e
             | .ok opts => .ok { traitVis := vis, traitIdent := name, opts := opts }
       | _ => .error .syn
+
+def parseFnAttr (ts : Toks) : Except PErr FnAttr := parseFnSegs (splitCommas ts)
 
 structure TraitAttr where
   implTrait : Option (Toks × String) := none
@@ -198,30 +199,30 @@ def TraitAttr.set (a : TraitAttr) : Opt → Option TraitAttr
   | .noDeps _ => none
   | .export_ _ => none
 
-/-- `EntraitTraitAttr::parse`.  The delegation-target trait is recognised by the *failure* of
-    option parsing at the start; after it a comma is optional. -/
+/-- `EntraitTraitAttr::parse`, on the comma-separated segments.  The delegation-target trait is
+    recognised by the *failure* of option parsing at the start; after it a comma is optional. -/
+def parseTraitSegs : List Toks → Except PErr TraitAttr
+  | [] => .ok {}
+  | seg0 :: segs =>
+    match parseOpt seg0 with
+    | .ok _ => parseOptSegs TraitAttr.set {} (seg0 :: segs)
+    | .error _ =>
+      match parseVis seg0 with
+      | .error e => .error e
+      | .ok (vis, rest) =>
+        match rest with
+        | .ident name :: rest0 =>
+            if isKeyword name then .error .syn
+            else
+              let st : TraitAttr := { implTrait := some (vis, name) }
+              let optSegs :=
+                if !rest0.isEmpty then rest0 :: segs
+                else if segs == [[]] then [] else segs
+              parseOptSegs TraitAttr.set st optSegs
+        | _ => .error .syn
+
 def parseTraitAttr (ts : Toks) : Except PErr TraitAttr :=
-  if ts.isEmpty then .ok {}
-  else
-    match splitCommas ts with
-    | [] => .ok {}
-    | seg0 :: segs =>
-      match parseOpt seg0 with
-      | .ok _ => parseOptSegs TraitAttr.set {} (seg0 :: segs)
-      | .error _ =>
-        match parseVis seg0 with
-        | .error e => .error e
-        | .ok (vis, rest) =>
-          match rest with
-          | .ident name :: rest0 =>
-              if isKeyword name then .error .syn
-              else
-                let st : TraitAttr := { implTrait := some (vis, name) }
-                let optSegs :=
-                  if !rest0.isEmpty then rest0 :: segs
-                  else if segs == [[]] then [] else segs
-                parseOptSegs TraitAttr.set st optSegs
-          | _ => .error .syn
+  if ts.isEmpty then .ok {} else parseTraitSegs (splitCommas ts)
 
 structure ImplAttr where
   dynRef : Bool := false
